@@ -209,6 +209,8 @@ def parse_type(s):
     return ("rec", s[4:], None)
   if s.startswith("elem:"):
     return ("elem", s[5:])
+  if s.startswith("obj:"):
+    return ("obj", s[4:])
   if low == "point":
     return ("tuple", (("opt", "int"), ("opt", "int")))
   if low == "jpoint":
